@@ -67,6 +67,18 @@ for pid in args:
                   'covers: a check moved after state has been built, a guard narrowed or widened by one case, a wrong comparison '
                   'operator at a boundary (< vs <=, off by one), a default taken from the wrong place, an exception converted or '
                   'swallowed on one path only.')
+        if rnd >= 8:
+            t = t.replace('For THIS round use two further kinds: (E)', 'Round 7 used the kinds (E)')
+            t += ('\n\nFor THIS round (round 8) use two kinds not used before: (G) a NEAR-EQUIVALENT SUBSTITUTION -- one library call, '
+                  'operator or idiom replaced by another that agrees on ordinary inputs and differs on a specific one (copy.copy for '
+                  'deepcopy or dict(d) for a nested dict, == for is or the reverse, isinstance for an exact type test or the reverse, '
+                  'dict.update for a recursive update, d.get(k) or default for an "in" test, sorted/set for insertion order, '
+                  'zip for an index loop when lengths differ, any/all for an explicit loop with an early exit, an exception class '
+                  'replaced by its parent or child, str.split/partition variants, >= for >, floor division, a generator made a list '
+                  'or a list made a generator); (H) a LESS-TRAVELLED ENTRY POINT OR OPTION -- break the property only for a keyword '
+                  'argument, an optional parameter, an alternative constructor form, a second method of the same class (fill vs run, '
+                  'request vs compute, __call__ vs run, reset, __eq__, __repr__, __deepcopy__, _set_context) or a branch taken only '
+                  'for one of the documented input forms, leaving the main path exactly as it is.')
         if rnd >= 6 and rnd < 7:
             t = t.replace('For this round make the two changes of two different KINDS: (A)', 'In earlier rounds the changes were of the kinds (A)')
             t += ('\n\nFor THIS round use two other kinds instead: (C) a change that only shows on an edge of the quantified domain or on '
